@@ -1,0 +1,24 @@
+//go:build verif
+
+// Package verifgen re-exports a few generated types of gen/internal/tests so that
+// the external verification harness (/verif/harness) can exercise generated
+// ToWire/FromWire/Encode/Decode methods. It only exists under the `verif` build
+// tag and adds no behaviour.
+package verifgen
+
+import "go.uber.org/thriftrw/gen/internal/tests/structs"
+
+// generated struct types
+type (
+	PrimitiveRequiredStruct = structs.PrimitiveRequiredStruct
+	PrimitiveOptionalStruct = structs.PrimitiveOptionalStruct
+	Point                   = structs.Point
+	Size                    = structs.Size
+	Frame                   = structs.Frame
+	Edge                    = structs.Edge
+	Graph                   = structs.Graph
+	ContactInfo             = structs.ContactInfo
+	PersonalInfo            = structs.PersonalInfo
+	User                    = structs.User
+	Node                    = structs.Node
+)
